@@ -121,7 +121,7 @@ LoopHead ==
      THEN /\ EndRun(orig, TRUE)                                        \* loop limit: original tree, fixes discarded
           /\ UNCHANGED <<prop, hist>>
      ELSE /\ changed' = FALSE
-          /\ allrules' = (IF First THEN TRUE ELSE allrules)            \* rules_this_phase = rule_pack.rules
+          /\ allrules' = (IF First THEN TRUE ELSE (Sticky /\ allrules))   \* rules_this_phase = rule_pack.rules (never reset: Sticky)
           /\ ri' = 1 /\ pc' = "crawl"
           /\ UNCHANGED <<prop, run, phase, loop, tree, orig, prev, last, hist, path, res, hit>>
   /\ UNCHANGED <<phs, compat, limit>>
